@@ -36,7 +36,14 @@ GEOMS = {
     "A": {"cls": "uni", "dims": [4, 3], "spacing": [1.0, 0.5], "origin": [0.0, -1.0], "inc": [True, True], "order": "F", "rev": False, "loc": "CELLS"},
     "B": {"cls": "uni", "dims": [5, 3], "spacing": [1.0, 0.5], "origin": [0.0, -1.0], "inc": [True, True], "order": "F", "rev": False, "loc": "CELLS"},
     "R": {"cls": "rect", "axes": [[0.0, 1.0, 3.0], [1.0, 2.0, 2.5, 4.0]], "order": "F", "rev": False, "loc": "CELLS"},
+    # same shape as A, shifted by one cell: every location differs, no shape test can notice
+    "A2": {"cls": "uni", "dims": [4, 3], "spacing": [1.0, 0.5], "origin": [1.0, -1.0], "inc": [True, True], "order": "F", "rev": False, "loc": "CELLS"},
+    # A and A2 with micrometre cells (coordinates in metres)
+    "a": {"cls": "uni", "dims": [4, 3], "spacing": [1.0e-6, 0.5e-6], "origin": [0.0, -1.0e-6], "inc": [True, True], "order": "F", "rev": False, "loc": "CELLS", "_scale": 1.0e-6},
+    "a2": {"cls": "uni", "dims": [4, 3], "spacing": [1.0e-6, 0.5e-6], "origin": [1.0e-6, -1.0e-6], "inc": [True, True], "order": "F", "rev": False, "loc": "CELLS", "_scale": 1.0e-6},
 }
+UFAM = {"U": (1.0, False), "V": (1.0, True), "u": (1.0e-6, False), "v": (1.0e-6, True)}  # unstructured: scale, one node moved
+SIBLING = {"A": "A2", "A2": "A", "a": "a2", "a2": "a", "U": "V", "V": "U", "u": "v", "v": "u"}
 
 _CLS = None
 
@@ -123,8 +130,10 @@ def grid_of(g):
         return None, None
     if g[0] == "N":
         return fm.NoGrid(g[1]), None
-    if g[0] == "U":
-        pts = [[0.0, 0.0], [1.0, 0.0], [2.0, 0.0], [0.0, 1.0], [1.0, 1.5], [2.0, 1.0]]
+    if g[0] in UFAM:
+        scale, moved = UFAM[g[0]]
+        pts = [[0.0, 0.0], [1.0, 0.0], [2.0, 0.0], [0.0, 1.0], [1.0, 1.25 if moved else 1.5], [2.0, 1.0]]
+        pts = [[x * scale, y * scale] for x, y in pts]
         cells = [[0, 1, 3], [1, 4, 3], [1, 2, 4], [2, 5, 4], [0, 1, 4], [1, 2, 5]]  # as many cells as points
         return fm.UnstructuredGrid(pts, cells, [fm.CellType.TRI] * 6, data_location=g[1]), "U"
     base = dict(GEOMS[g[0]])
@@ -150,7 +159,7 @@ def mask_of(m, cfg):
         mk = np.array([True, False, False, True, False, False])
         return mk if m == "fixed" else ~mk
     LOC, _, _ = hg.ref(cfg)
-    mk = maskfn(LOC)
+    mk = maskfn(np.round(LOC / cfg.get("_scale", 1.0), 6))  # the pattern follows the cells, not the length unit
     return mk if m == "fixed" else ~mk
 
 
@@ -379,9 +388,9 @@ def check(case, ctx):
 # ------------------------------------------------------------------ generator
 @st.composite
 def grid_spec(draw):
-    k = draw(st.sampled_from(["A", "A", "B", "R", "N0", "N1", "U"]))
-    if k == "U":
-        return ["U", draw(st.sampled_from(["CELLS", "POINTS"]))]
+    k = draw(st.sampled_from(["A", "A", "A", "B", "B", "R", "R", "N0", "N0", "N1", "N1", "U", "U", "A2", "a", "a2", "V", "u", "v"]))
+    if k in UFAM:
+        return [k, draw(st.sampled_from(["CELLS", "POINTS"]))]
     if k == "N0":
         return ["N", 0]
     if k == "N1":
@@ -425,10 +434,12 @@ def case_st(draw):
             cg = base_g
         elif r < 10 and ada != "val2grid":
             cg = None
-        elif r < 16 and base_g[0] not in ("N", "U"):
+        elif r < 16 and base_g[0] != "N" and base_g[0] not in UFAM:
             cg = [base_g[0], base_g[1], draw(st.sampled_from("CF")), draw(st.booleans()), [draw(st.booleans()), draw(st.booleans())]]
-        elif r < 16 and base_g[0] == "U":
-            cg = ["U", draw(st.sampled_from(["CELLS", "POINTS"]))]
+        elif r < 16 and base_g[0] in UFAM:
+            cg = [base_g[0], draw(st.sampled_from(["CELLS", "POINTS"]))]
+        elif r < 18 and base_g[0] in SIBLING:
+            cg = [SIBLING[base_g[0]]] + list(base_g[1:])  # same layout, displaced locations (also at micrometre scale)
         else:
             cg = draw(grid_spec())
         # units
